@@ -1,5 +1,9 @@
+'''Re-states lemmas of the proof files as theorems of Properties/Cxx.v (statement printed by coqtop, closed by exact).
+Usage: cd /verif/coq && python3 ../harness/gen_properties.py C03 C12 ...   (regenerates the session-4 block of those files)'''
 import subprocess, re, sys, json
 SPEC = {
+ 'C03': (['Proofs.RatDerivAnalytic'], [('C03_curve_kernels_are_derivatives','curve_kernels_are_derivatives'),('C03_quot1_is_partial_derivative','quot1_is_partial_derivative'),('C03_surface_kernels_are_partials','surface_kernels_are_partials'),('C03_surface_mixed_partial','surf_d11_is_mixed_partial'),('C03_rational_curve_derivative_is_derivative','rational_curve_derivative_is_derivative'),('C03_rational_surface_derivative_is_partial','rational_surface_derivative_is_partial'),('C03_tangent_is_normalised','normalize3_spec'),('C03_normal_is_normalised_cross','normal3_spec')]),
+ 'C12': (['Proofs.ObjEval','Proofs.IdenticalEndToEnd'], [('C12_compatible_then_evaluate','compatible_eval'),('C12_identical_dir_knots','identical_dir_knots'),('C12_identical_dir_then_evaluate','identical_dir_eval'),('C12_identical_dir_then_evaluate_second','identical_dir_eval2'),('C12_identical_same_order_succeeds','identical_dir_same_order_ok'),('C12_make_identical_knots','make_identical_knots'),('C12_make_identical_then_evaluate','make_identical_eval'),('C12_hypotheses_satisfiable','ex_hyps')]),
  'C01': (['Proofs.DenseSparse'], [('C01_dense_sparse_agree','dense_sparse_agree'),('C01_dense_sparse_entry','dense_sparse_entry'),('C01_dense_sparse_distinct','dense_sparse_distinct'),('C01_dense_sparse_nonperiodic','dense_sparse_nonperiodic'),('C01_sparse_row_shape','sparse_row_shape')]),
  'C02': (['Model.EvalForms','Proofs.EvalFormsProofs'], [('C02_grid_spec','grid_spec'),('C02_pointwise_is_grid_diagonal','pointwise_diagonal'),('C02_pointwise_unequal_lengths','pointwise_unequal'),('C02_singleton_lists_give_one_point','grid_singletons'),('C02_scalars_give_one_point','scalars_eval'),('C02_grid_value_error_iff','grid_value_error_iff')]),
  'C06': (['Proofs.ObjEval','Proofs.ReparamEndToEnd','Proofs.ReverseEndToEnd','Proofs.SwapEndToEnd'], [('C06_reparam_then_evaluate','reparam_dir_eval'),('C06_reparam_then_evaluate_scaled_tolerance','reparam_dir_eval_scaled'),('C06_reparam_curve_then_evaluate','reparam_curve_eval'),('C06_reparam_domain','reparam_dir_domain'),('C06_reparam_inverse','reparam_dir_inverse'),('C06_reparam_total','reparam_dir_total'),
@@ -7,7 +11,7 @@ SPEC = {
    ('C06_swap_then_evaluate','swap_eval'),('C06_swap_wf','swap_wf'),('C06_swap_involution','swap_involution'),('C06_swap_curve','swap_curve')]),
  'C07': (['Proofs.ObjEval','Proofs.SplitTiling','Proofs.RestrictDirEval','Proofs.SplitEndToEnd','Proofs.SplitCompose'], [('C07_split_insert_spec','split_insert_spec'),('C07_split_succeeds','obj_split_ok'),('C07_split_count','split_length'),('C07_split_tiling','split_tiling'),('C07_split_then_evaluate','split_then_evaluate'),('C07_piece_param_intro','piece_param_intro'),('C07_split_piece_eval','split_piece_eval'),('C07_split_skips_outside','split_pieces_skip'),('C07_hypotheses_satisfiable','ex_hyps')]),
  'C08': (['Proofs.SeamContinuity','Proofs.MakePeriodicKnots'], [('C08_seam_derivatives','seam_derivatives'),('C08_seam_derivatives_list','seam_derivatives_list'),('C08_wrap_value','wrap_value'),('C08_continuous_at_multiple_knot','dB_continuous_at_multiple_knot'),('C08_make_periodic_images','mp_images'),('C08_make_periodic_sorted','mp_sorted'),('C08_make_periodic_seam_rows','mp_seam_rows'),('C08_open_close_knots','open_close_knots'),('C08_close_open_make_periodic','close_open_make_periodic'),('C08_split_opens_at_seam','split_opens_at_seam')]),
- 'C13': (['Proofs.CompositeShapes'], [('C13_sphere_from_revolve_net','sphere_from_revolve_net'),('C13_torus_from_revolve_net','torus_from_revolve_net'),('C13_solid_torus_from_revolve_net','solid_torus_from_revolve_net'),('C13_cylinder_from_extrude_net','cylinder_from_extrude_net'),('C13_solid_cylinder_from_extrude_net','solid_cylinder_from_extrude_net'),('C13_extrude_cartesian_rational','extrude_cartesian_rational'),('C13_radial_interpolation','radial_interpolation'),('C13_disc_square_boundary','disc_square_boundary'),('C13_disc_square_inside','disc_square_inside'),('C13_placement_frame','placement_frame'),('C13_sphere_factory_chain','sphere_factory_chain'),('C13_torus_factory_chain','torus_factory_chain'),('C13_cylinder_placed','cylinder_placed'),('C13_solid_cylinder_placed','solid_cylinder_placed')]),
+ 'C13': (['Proofs.CompositeShapes','Gen.DiscSquare','Proofs.DiscSquareTie'], [('C13_sphere_from_revolve_net','sphere_from_revolve_net'),('C13_torus_from_revolve_net','torus_from_revolve_net'),('C13_solid_torus_from_revolve_net','solid_torus_from_revolve_net'),('C13_cylinder_from_extrude_net','cylinder_from_extrude_net'),('C13_solid_cylinder_from_extrude_net','solid_cylinder_from_extrude_net'),('C13_extrude_cartesian_rational','extrude_cartesian_rational'),('C13_radial_interpolation','radial_interpolation'),('C13_disc_square_boundary','disc_square_gen_boundary'),('C13_disc_square_inside','disc_square_gen_inside'),('C13_placement_frame','placement_frame'),('C13_sphere_factory_chain','sphere_factory_chain'),('C13_torus_factory_chain','torus_factory_chain'),('C13_cylinder_placed','cylinder_placed'),('C13_solid_cylinder_placed','solid_cylinder_placed')]),
  'C17': (['Model.Catalogue','Proofs.CatalogueProofs'], [('C17_add_idempotent','add_idempotent'),('C17_lookup_after_add','lookup_after_add'),('C17_nodes_are_cells','nodes_are_cells'),('C17_order_independent','order_independent'),('C17_orientation_independent','orientation_independent'),('C17_reoriented_copy_known','reoriented_copy_known'),('C17_order_orientation_independent','order_orientation_independent'),('C17_graph_invariants','graph_invariants'),('C17_higher_neighbours','higher_neighbours'),('C17_boundary_spec','boundary_spec'),('C17_lattice2_counts','lattice2_counts'),('C17_lattice3_counts','lattice3_counts')]),
  'C18': (['Model.Faces','Proofs.FacesProofs'], [('C18_cell_numbers_bijection','cell_numbers_bijection'),('C18_face_count','face_count'),('C18_internal_face_owner_neighbor','internal_face_owner_neighbor'),('C18_adjacent_cells_have_face','adjacent_cells_have_face'),('C18_internal_pairs_NoDup','internal_pairs_NoDup'),('C18_cell_six_faces','cell_six_faces'),('C18_internal_face_nodes','internal_face_nodes'),('C18_boundary_lower_face_nodes','boundary_lower_face_nodes'),('C18_boundary_upper_face_nodes','boundary_upper_face_nodes'),('C18_internal_face_orientation','internal_face_orientation'),('C18_boundary_upper_face_orientation','boundary_upper_face_orientation'),('C18_boundary_lower_face_orientation','boundary_lower_face_orientation'),('C18_owner_below_neighbour','faces_final_assert'),('C18_no_face_twice','patch_faces_key_NoDup')]),
  'C19': (['Model.Stl','Model.Spl','Proofs.StlProofs','Proofs.SplProofs'], [('C19_spl_roundtrip','spl_roundtrip'),('C19_spl_index_map','spl_cps_nth'),('C19_spl_index_bijection','spl_index_surj'),('C19_spl_decode_sound','spl_decode_sound'),('C19_spl_truncated_rejected','spl_truncated_rejected'),('C19_stl_declared_count','stl_declared_count'),('C19_stl_vertices_on_grid','stl_vertices_on_grid'),('C19_stl_grid_covered','stl_grid_covered'),('C19_stl_write_surface_spec','stl_write_surface_spec'),('C19_stl_split_spec','stl_split_spec'),('C19_stl_params_general','stl_params_general'),('C19_stl_pad3','pad3_spec')]),
@@ -18,7 +22,9 @@ def header(pid):
     m=re.findall(r'^(From [^\n]*\n(?:  [^\n]*\n)*)',src,flags=re.M)
     return ''.join(m)+'Import ListNotations.\n'
 out={}
+WANT = set(sys.argv[1:])
 for pid,(mods,ths) in SPEC.items():
+    if WANT and pid not in WANT: continue
     pre=header(pid)
     extra='From SplipyModel Require Import %s.\n'%' '.join(mods)
     scope='Open Scope R_scope.\n' if 'Open Scope R_scope' in open('theories/Properties/%s.v'%pid).read() else ''
@@ -41,5 +47,10 @@ for pid,(mods,ths) in SPEC.items():
             print('MISSING',pid,l, p.stderr[-300:]); continue
         add.append('Theorem %s :\n  %s.\nProof. exact %s. Qed.\nPrint Assumptions %s.\n\n'%(nm,types[l].replace('\n','\n  '),'@'+l,nm))
     out[pid]=''.join(add)
-json.dump(out,open('/tmp/pg/out.json','w'))
+MARK='\n(* ------------------------------------------------------------------------------------------------------\n   Added in build session 4'
+for pid,txt in out.items():
+    p='theories/Properties/%s.v'%pid
+    src=open(p).read()
+    if MARK in src: src=src[:src.index(MARK)]
+    open(p,'w').write(src.rstrip('\n')+'\n'+txt)
 for pid in out: print(pid,len(out[pid]))
